@@ -145,6 +145,9 @@ func (e *Engine) evalExpr(ctx context.Context, expr logql.Expr, params EvalParam
 		if err != nil {
 			return data, errors.Wrap(err, "build metric query")
 		}
+		defer func() {
+			_ = iter.Close()
+		}()
 
 		data, err = logqlmetric.ReadStepResponse(iter, params.IsInstant())
 		if err != nil {
